@@ -26,11 +26,15 @@ Conforming(dummy) ==
   UNION {{[ti |-> ti, level |-> "both", input |-> Feed(TypesSel[ti], tv), tv |-> tv]
             : tv \in {x \in Inh(TypesSel[ti]) : ~FromFile \/ VWeight(x) % MutEvery = 0}} : ti \in MyTypes}
 
+\* the inhabitants whose mutations are enumerated: every MutEvery-th one (by a weight), ALL of them for a type that has few
+\* (an enum, a scalar-like union: sampling would leave such types without any mutant)
+SampledInh(T) == LET all == Inh(T) IN IF Cardinality(all) <= 8 THEN all ELSE {x \in all : VWeight(x) % MutEvery = 0}
+
 Mutants(dummy) ==
   UNION {UNION {
      {[ti |-> ti, level |-> "type", input |-> m, tv |-> tv] : m \in Mut(Feed(TypesSel[ti], tv))}
      \cup {[ti |-> ti, level |-> "repr", input |-> m, tv |-> tv] : m \in Mut(ReprOf(TypesSel[ti], tv))}
-       : tv \in {x \in Inh(TypesSel[ti]) : VWeight(x) % MutEvery = 0}} : ti \in MyTypes}
+       : tv \in SampledInh(TypesSel[ti])} : ti \in MyTypes}
 
 Init == sc \in (IF SMode \in {"conforming", "file-conforming"} THEN Conforming(0) ELSE Mutants(0))
 Next == UNCHANGED sc
